@@ -174,8 +174,25 @@ func randomTrace(rng *rand.Rand, rep *kit.Report, rec *kit.Recorder, steps int, 
 			sortNodes(cands)
 			n := pick(cands)
 			cmdSeq++
-			cmd := mkCommand(cmdSeq, 1+rng.Intn(2), installed[n].ChannelEpoch, 0)
+			cmd := mkCommand(cmdSeq, 1+rng.Intn(3), installed[n].ChannelEpoch, 0)
 			history = append(history, issued{cmd: cmd, node: n, auth: installed[n], seq: cmdSeq})
+			if rng.Intn(8) == 0 {
+				// every follower reply of this round is lost: the proposal stays pending with an unknown
+				// outcome; it is then retried with identical or with changed content
+				for _, v := range voters {
+					if v != n {
+						c.setDrop(n, v, true)
+					}
+				}
+				rep.Cover("CommitRepliesLost")
+				doCommit(n, installed[n], cmd, false)
+				c.healAll()
+				if rng.Intn(2) == 0 {
+					doCommit(n, installed[n], mkCommand(cmdSeq, len(cmd.records), installed[n].ChannelEpoch, 7), true)
+				}
+				doCommit(n, installed[n], cmd, false)
+				continue
+			}
 			doCommit(n, installed[n], cmd, false)
 		case r < 64 && len(history) > 0: // a proposal that still expects an OLDER authority of the same node
 			h := history[rng.Intn(len(history))]
@@ -272,6 +289,30 @@ func randomTrace(rng *rand.Rand, rep *kit.Report, rec *kit.Recorder, steps int, 
 					}
 				}
 			default: // healed
+			}
+		case r < 90 && lastLeader != 0 && down == 0: // owner restart of the newest leader + same-authority re-install + retries
+			n := lastLeader
+			cur, ok := installed[n]
+			if !ok || cur != (replication.AuthorityID{ChannelEpoch: epoch, LeaderTerm: term, FenceVersion: fv}) {
+				continue
+			}
+			rep.Cover("OwnerRestartReinstall")
+			c.crash(n)
+			if err := c.restart(n); err != nil {
+				return err
+			}
+			delete(installed, n)
+			if _, err := c.install(n, mkAuthority(cur, n, false), callTimeout); err != nil {
+				continue
+			}
+			installed[n] = cur
+			for k := len(history) - 1; k >= 0 && k >= len(history)-6; k-- {
+				if h := history[k]; h.node == n && h.auth == cur {
+					if rng.Intn(3) == 0 {
+						doCommit(n, cur, mkCommand(h.seq, len(h.cmd.records), h.auth.ChannelEpoch, 7), true)
+					}
+					doCommit(n, cur, h.cmd, false)
+				}
 			}
 		case r < 94: // crash or restart (at most one replica down)
 			if down == 0 {
